@@ -9,7 +9,7 @@ CLAIMS = {
         text='Every feasible path of c_aggregate / c_flathomogen, for all index vectors, values (finite or NaN) and maxnan within the '
              'length bound, is shown by z3 to agree with a group-wise reference (sum/mean/max/last-valid, NaN policy, totals, rejection of a '
              'decreasing index); unsat = holds within the bound, sat models are replayed on the real build before being reported.',
-        note='Bounds: nval<=4 quick / <=6 thorough. Doubles as exact reals + NaN flag (rounding outside). monthly2daily (pandas) is outside the claim. '
+        note='Bounds: nval<=4 quick / <=6 thorough. Doubles as exact reals + NaN flag (rounding outside). monthly2daily (pandas) is outside the claim. The precondition of the families (int32 index, float64 copies, output buffer NaN where the input is missing, operator / maxnan unchanged, result = kernel output up to iend) is validated by running the real dutils.aggregate / flathomogen with a recording stand-in (concrete scenarios, labelled as such). '
              'Trusted: clang IR lowering, the IR interpreter (validated against the native build on every run), z3.',
         technique=TECH_A, engine='llir', ref='DESIGN.md section 3, C08'),
 }
@@ -73,7 +73,9 @@ CLAIMS['C10'] = dict(
          'hence depend only on the pooled order; c_ad_test sorts its buffer, rejects values outside [0,1] and NaN, and its statistic equals the '
          'textbook formula on the sorted sample.',
     note='Bounds: ensrank up to 2x2 and 3x1 quick (3x2, 2x3, 4x1 thorough), eps=1e-6; AD n<=3 (4 thorough). log uninterpreted; p-value routines stubbed '
-         '(p-values, Cramer-von Mises, alpha, pit(random=False) are outside: numeric tables / scipy). qsort = stable insertion sort (glibc qsort is stable).',
+         '(AD p-values, alpha, pit(random=False) are outside: scipy / compiled tables). Engine B adds pit(random=True), the single-member dscore and '
+         'cramer_von_mises_test on symbolic samples of 1-2 values (3 thorough) in any order plus ascending 4-/5-value slices that reach the end of the p-value '
+         'table: statistic = textbook formula, p-value in [0,1] (np.interp on the 500-row table executed by bisection). qsort = stable insertion sort (glibc qsort is stable).',
     technique=TECH_A, engine='llir', ref='DESIGN.md section 3, C10')
 CLAIMS['C20'] = dict(
     text='pareto_front kernel: with symbolic coordinates (finite or NaN) and both orientations z3 shows on every feasible path that a point is flagged '
@@ -117,7 +119,9 @@ CLAIMS['C02'] = dict(
          'code; on every feasible path z3 decides that it equals the real jacobian, that the jacobian is positive, and that forward is increasing '
          'between two symbolic domain points; Softmax: determinant of the AD partials equals the jacobian.',
     note='Trusted base: the differentiation rules of the Dual class, the EXP/LOG axioms. Exact reals; replay oracle = 5-point central difference on the '
-         'real float code (1e-4). Inconclusive paths (Logit edges, LogSinh) are counted in the evidence.',
+         'real float code (1e-4). Inconclusive paths (Logit edges, LogSinh) are counted in the evidence. Extra cases: non-default constructor options (base, '
+         'mininu, minilam), LogSinh with a = b = 1 pinned (domain guard decided in linear arithmetic), Softmax down to components of 1e-6, and per class '
+         '"jacobian > 0 for every parameter vector the DECLARED bounds accept" (no harness restriction on the parameters).',
     technique=TECH_B, engine='pysym', ref='DESIGN.md section 3, C02')
 
 CLAIMS['C12'] = dict(
@@ -125,7 +129,8 @@ CLAIMS['C12'] = dict(
          'combination) ONE operation with symbolic arguments is executed and z3 decides on every path that values stay within bounds, NaN only if '
          'allowed, rejected assignments leave all observables unchanged, names/bounds/defaults are unchanged and not aliased, the hit flag is raised '
          'iff the assignment was clipped, and clone / to_dict->from_dict reproduce the full observable state incl. flags; the post-conditions '
-         're-establish the invariant, so histories of any length are covered. Read-only uses of the 13 transforms leave params, constants and bounds unchanged.',
+         're-establish the invariant, so histories of any length are covered. Read-only uses of the 13 transforms leave params, constants and bounds unchanged, '
+         'also on a freshly built object whose constants were never set (calls may raise, never write).',
     note='Bounds: 1 name (2 thorough), finite symbolic or infinite bounds, |values| <= 1000, assigned values >= 1e-6 from a bound or on it. A counterexample '
          'from a pre-state no history reaches would mean the invariant is too weak (to be strengthened, not reported). latin-hypercube sampler and RNG '
          'stubbed by arbitrary values of their range on the symbolic path.',
@@ -137,8 +142,9 @@ CLAIMS['C04'] = dict(
          'non-degenerate series never give NaN, nse <= 1, perfect simulations score 0/1/1. binary() on a symbolic table of positive integer counts: '
          'each of the nine scores equals its contingency-table definition for all counts (odds ratio below, at and above 1).',
     note='Bounds: length 2-3 (4 thorough), Identity and Log (thorough + BoxCox2, Reciprocal, Sinh), one concrete NaN position with excludenull. np.corrcoef = its '
-         'formula; spearmanr is a stub whose arguments are checked; confusion_matrix (pandas crosstab) is outside. kge / some corr obligations come back '
-         'solver-unknown (square roots in NRA) and are counted as inconclusive.',
+         'formula; spearmanr is a stub whose arguments are checked; confusion_matrix (pandas crosstab) is outside. corr also with 2-member ensembles '
+         '(statistic of the TRANSFORMED members), fully symbolic and on a 2-dimensional slice; MCC with its sign. kge under Log can come back solver-unknown '
+         '(counted as inconclusive).',
     technique=TECH_B, engine='pysym', ref='DESIGN.md section 3, C04')
 
 CLAIMS['C05'] = dict(
@@ -157,7 +163,8 @@ CLAIMS['C19'] = dict(
     text='get_batch is executed with a symbolic number of elements (up to 1e6) for every batch index of each concrete number of batches: z3 decides that '
          'the batches are contiguous, ordered, disjoint, cover every element once and differ in size by at most one, and that invalid calls raise '
          'ValueError. OptionManager: CrossHair confirms over all paths (symbolic integer lists) that from_cartesian_product enumerates every combination '
-         'exactly once, that to_dict/from_dict give equality in both directions also with renamed keys, and that different managers compare unequal.',
+         'exactly once, that to_dict/from_dict give equality in both directions also with renamed keys, that different managers compare unequal, and that a '
+         'bare string of 1-3 characters is one option value.',
     note='np.arange/np.array_split are replaced by a range model validated against the real numpy on every run. Bounds: nbatch 1..8 (16 thorough); option '
          'lists of 1-3 distinct integers. OptionManager.find is attempted in a tighter bound and reported inconclusive when CrossHair does not finish '
          '(regex on str(int)); SiteBatch.search is only enumerated on small site lists.',
@@ -171,7 +178,7 @@ CLAIMS['C09'] = dict(
          'and reported inconclusive when CrossHair does not finish.  The storage modes (plain, compressed under .csv/.zip/extension-less/dotted names, '
          'archive member in a sub-folder) form a finite configuration space and are enumerated on real temporary files.',
     note='Header logic: values <= 4 chars, no newline / outer blanks. Everything pandas does with the body is only exercised by the enumerated scenario '
-         '(one frame with float / int / text columns), not decided symbolically: the property is claimed in part.',
+         '(one frame with float / int / text columns, text containing commas, quotes, colons and hashes), not decided symbolically: the property is claimed in part.',
     technique=TECH_C, engine='ch', ref='DESIGN.md section 3, C09')
 
 CLAIMS['C18'] = dict(
